@@ -266,6 +266,25 @@ pub fn run(args: &[String]) -> i32 {
             }
         }
     }
+    // 3e. item names that a looser order than the byte order would tie (a name that is a prefix of the next one, digit
+    //     runs of equal value, names equal up to case), one per file: every arrival order, every language
+    {
+        let srcs = [
+            "#[typeshare]\npub struct Request { pub a: u32 }\n#[typeshare]\npub enum Mode2 { A, B }\n",
+            "#[typeshare]\npub struct Request2 { pub b: u32 }\n#[typeshare]\npub type Ids = Vec<u32>;\n",
+            "#[typeshare]\npub struct Request02 { pub c: u32 }\n#[typeshare]\npub enum Mode { C, D }\n",
+            "#[typeshare]\npub struct REQUEST { pub d: u32 }\n#[typeshare]\npub type Ids2 = Vec<String>;\n",
+        ];
+        let stems: Vec<&str> = STEMS[..4].to_vec();
+        for perm in permutations(4) {
+            for &lang in &ALL_LANGS {
+                let files: Vec<(String, String)> = stems.iter().zip(srcs.iter()).map(|(s, c)| (s.to_string(), c.to_string())).collect();
+                let mut schedule = e3::start_barrier(&stems);
+                schedule.extend(perm.iter().map(|i| format!("send:{}", stems[*i])));
+                jobs.push(Job { class: format!("near-equal-names|{}", lang.name()), files, schedule, expect_events: None, lang, multi: false, threads: 4, family: "nearly-equal-names-across-files" });
+            }
+        }
+    }
     // 4. thread counts 1..16, free running (no forced schedule)
     for t in 1..=16usize {
         for &lang in &[Lang::TypeScript, Lang::Go] {
